@@ -13,6 +13,11 @@ def declare(node, sig):
     sig("aws_dump", c_long, c_long, c_char_p, c_long)
     sig("aws_text", c_long, c_long, c_int, c_char_p, c_long)
     sig("aws_length", c_long, c_long)
+    # json
+    sig("aws_fromjson", c_long, c_int, c_char_p, c_long, c_long, c_long, c_double, c_char_p, c_char_p, c_char_p,
+        POINTER(c_long), c_int)
+    sig("aws_tojson", c_long, c_long, c_int, c_long, c_long, c_char_p, c_char_p, c_char_p, c_char_p, c_char_p,
+        c_char_p, c_long)
 
 
 class Mixin:
@@ -49,3 +54,20 @@ class Mixin:
         if r < 0:
             self.raise_last()
         return r
+
+    @staticmethod
+    def _opt(s):
+        return b"\x01" if s is None else (s.encode("utf-8") if isinstance(s, str) else s)
+
+    def fromjson(self, via, text: bytes, buffersize=65536, initial=1024, resize=1.5, nan=None, inf=None, minf=None,
+                 chunks=()):
+        arr = (c_long * max(1, len(chunks)))(*chunks) if chunks else None
+        h = self.lib.aws_fromjson(via, text, len(text), buffersize, initial, resize, self._opt(nan), self._opt(inf),
+                                  self._opt(minf), arr, len(chunks))
+        if h == 0:
+            self.raise_last()
+        return h
+
+    def tojson(self, h, via=0, buffersize=65536, maxdecimals=-1, nan=None, inf=None, minf=None, cre=None, cim=None):
+        return self.text_call(self.lib.aws_tojson, h, via, buffersize, maxdecimals, self._opt(nan), self._opt(inf),
+                              self._opt(minf), self._opt(cre), self._opt(cim))
